@@ -14,7 +14,9 @@ EXTENDS Dispatch, Json, IOUtils
 Cases == JsonDeserialize(IOEnv.CASES_FILE)
 
 Point(c) == [hNE |-> c.p.hNE, hNS |-> c.p.hNS, hSE |-> c.p.hSE, hSS |-> c.p.hSS,
-             cN |-> c.p.cN, cS |-> c.p.cS, reserved |-> c.kind # "ordinary",
+             \* ("star": an ordinary event that happens to be NAMED "*" - no handler can be
+             \*  registered for it by name, the catch-alls are responsible like for any event)
+             cN |-> c.p.cN, cS |-> c.p.cS, reserved |-> c.kind \notin {"ordinary", "star"},
              other |-> c.p.other, method |-> c.p.method]
 
 Expected(c) ==
@@ -32,5 +34,5 @@ AllCasesOK == \A i \in 1..Len(Cases) : CaseOK(i)
 
 Sides == {Cases[i].side : i \in 1..Len(Cases)}
 Covered ==      \* every class saw every lattice point (reserved and ordinary)
-    \A s \in Sides : {Point(Cases[i]) : i \in {k \in 1..Len(Cases) : Cases[k].side = s}} = Lattice
+    \A s \in Sides : {Point(Cases[i]) : i \in {k \in 1..Len(Cases) : Cases[k].side = s /\ Cases[k].kind # "star"}} = Lattice
 =============================================================================
